@@ -76,7 +76,7 @@ package scorch
 
 // The segment of a global doc number: the last offset <= docNum.
 //@ func IndexSnapshot.segmentIndexAndLocalDocNumFromGlobal
-//@   props C08 C01
+//@   props C08 C01 C02
 //@   mode int
 //@   reveal offsetsOK
 //@   requires is != nil && offsetsOK(is) && len(is.offsets) > 0
@@ -123,7 +123,7 @@ package scorch
 // is set by the caller). The three flags are requirements of every reader contract below: the
 // payload copying is outside what C08 talks about.
 //@ func IndexSnapshotTermFieldReader.postingToTermFieldDoc
-//@   props C08
+//@   props C08 C02
 //@   mode int
 //@   prune
 //@   requires i != nil && rv != nil && !i.includeFreq && !i.includeNorm && !i.includeTermVectors
@@ -131,7 +131,7 @@ package scorch
 // Next: ids strictly ascending.
 //@ assume func segment.DiskStatsReporter.BytesRead(it)
 //@ func IndexSnapshotTermFieldReader.Next
-//@   props C08
+//@   props C08 C02
 //@   mode int
 //@   prune
 //@   reveal segsOK
@@ -164,7 +164,7 @@ package scorch
 //@ assume func fmt.Errorf(format, a)
 //@   pure
 //@ func IndexSnapshotTermFieldReader.Advance
-//@   props C08
+//@   props C08 C02
 //@   mode int
 //@   prune
 //@   reveal offsetsOK segsOK
